@@ -16,6 +16,8 @@ pub mod c08;
 pub mod c14;
 pub mod c09;
 pub mod c10;
+pub mod c04;
+pub mod c05;
 
 pub fn run(prop: &str, rng: &mut R, out: &mut Out, extra: &[String]) -> bool {
     let _ = extra;
@@ -35,6 +37,8 @@ pub fn run(prop: &str, rng: &mut R, out: &mut Out, extra: &[String]) -> bool {
         "C14" => c14::run(rng, out),
         "C09" => c09::run(rng, out),
         "C10" => c10::run(rng, out),
+        "C04" => c04::run(rng, out),
+        "C05" => c05::run(rng, out),
         _ => return false,
     }
     true
